@@ -990,6 +990,16 @@ class Interp:
         return v
 
     def ex_Tuple(self, e, fr):
+        # (*t, x, ...) with t a tuple with a symbolic prefix: t + (x, ...)
+        if e.elts and isinstance(e.elts[0], ast.Starred) and not any(
+                isinstance(x, ast.Starred) for x in e.elts[1:]):
+            first = self.eval(e.elts[0].value, fr)
+            if isinstance(first, ops.SymTuple):
+                rest = tuple(self.eval(x, fr) for x in e.elts[1:])
+                return ops.SymTuple(first.nrest, first.items + rest,
+                                    first.tag)
+            return tuple(list(self.iterate(first))
+                         + [self.eval(x, fr) for x in e.elts[1:]])
         return tuple(self.eval_elts(e.elts, fr))
 
     def ex_List(self, e, fr):
